@@ -47,6 +47,10 @@ func rule(phase int, id int, flag, actions string) string {
 	return fmt.Sprintf("SecRule REQUEST_HEADERS:X-F \"@contains %s\" \"id:%d,phase:%d,%s\"\n", flag, id, phase, actions)
 }
 
+// variant 0: SecAuditEngine On; variant 1: RelevantOnly without a status pattern (a record is written only
+// when a fired rule marked the transaction for auditing, so a mark left behind by a predecessor is visible)
+var variant int
+
 func conf(work string) string {
 	var sb strings.Builder
 	sb.WriteString("SecRuleEngine On\nSecRequestBodyAccess On\nSecResponseBodyAccess On\nSecResponseBodyMimeType text/plain application/json\n")
@@ -54,7 +58,12 @@ func conf(work string) string {
 	// exactly as many arguments as the probes carry: anything a recycled object still counts pushes them over the limit
 	sb.WriteString("SecArgumentsLimit 2\n")
 	fmt.Fprintf(&sb, "SecTmpDir %s\nSecUploadDir %s\nSecUploadKeepFiles Off\n", work, work)
-	sb.WriteString("SecAuditEngine On\nSecAuditLogType verifcap\nSecAuditLog /dev/null\nSecAuditLogParts ABCFHKZ\n")
+	if variant == 1 {
+		sb.WriteString("SecAuditEngine RelevantOnly\n")
+	} else {
+		sb.WriteString("SecAuditEngine On\n")
+	}
+	sb.WriteString("SecAuditLogType verifcap\nSecAuditLog /dev/null\nSecAuditLogParts ABCFHKZ\n")
 	// ---- phase 1
 	sb.WriteString(rule(1, 101, "match", "pass,log,msg:'m1'"))
 	sb.WriteString(rule(1, 102, "deny1", "deny,status:403,log"))
@@ -98,7 +107,7 @@ func conf(work string) string {
 	sb.WriteString("SecRule RESPONSE_BODY \"@rx .\" \"id:920,phase:4,pass,log,msg:'rb'\"\n")
 	sb.WriteString(rule(4, 401, "deny4", "deny,status:403,log"))
 	// ---- phase 5
-	sb.WriteString("SecAction \"id:950,phase:5,pass,log,msg:'logging'\"\n")
+	sb.WriteString("SecAction \"id:950,phase:5,pass,nolog,noauditlog,msg:'logging'\"\n")
 	return sb.String()
 }
 
@@ -110,8 +119,9 @@ type pred struct {
 }
 
 type kase struct {
-	Pred  pred `json:"predecessor"`
-	Probe int  `json:"probe"`
+	Pred    pred `json:"predecessor"`
+	Probe   int  `json:"probe"`
+	Variant int  `json:"audit_variant,omitempty"`
 }
 
 const multipartBody = "--B\r\nContent-Disposition: form-data; name=\"f\"; filename=\"x.txt\"\r\nContent-Type: text/plain\r\n\r\nfiledata\r\n--B\r\nContent-Disposition: form-data; name=\"a\"\r\n\r\nmp\r\n--B--\r\n"
@@ -203,6 +213,7 @@ var probes = []scen.Req{
 	{URI: "/probe?a=1&c=3"},
 	{URI: "/probe?b=2", Headers: [][2]string{scen.Form(), {"X-F", "match,capture,"}}, Body: "a=2&b=3"},
 	{URI: "/probe", Status: 200, RespHeaders: [][2]string{{"Content-Type", "text/plain"}, {"X-R", "1"}}, RespBody: "probe response"},
+	{URI: "/quiet", Headers: [][2]string{{"X-F", "setvar,"}}}, // fires no rule that logs or audits (except the nolog ones)
 }
 
 // runProbe returns the full canonical outcome of probe i on w.
@@ -335,7 +346,7 @@ func checkCase(c *runner.Ctx, refs []string, p pred, report func(sig, text strin
 	for pi := range probes {
 		w, err := build(c)
 		if err != nil {
-			report("build:"+err.Error(), err.Error(), kase{p, pi})
+			report("build:"+err.Error(), err.Error(), kase{Pred: p, Probe: pi})
 			return
 		}
 		calls := 0
@@ -350,14 +361,14 @@ func checkCase(c *runner.Ctx, refs []string, p pred, report func(sig, text strin
 			}
 			if rd != nil {
 				if s := rd(); s != `""` {
-					report("reader-of-closed-transaction-yields-data", fmt.Sprintf("a request body reader obtained before Close still yields %s after Close", s), kase{p, pi})
+					report("reader-of-closed-transaction-yields-data", fmt.Sprintf("a request body reader obtained before Close still yields %s after Close", s), kase{Pred: p, Probe: pi})
 				}
 			}
 			if p.Closes == 2 {
 				t1 := w.NewTransaction()
 				t2 := w.NewTransaction()
 				if t1 == t2 {
-					report("double-close-aliases-two-transactions", "after Close was called twice, two transactions opened at the same time are the same object", kase{p, pi})
+					report("double-close-aliases-two-transactions", "after Close was called twice, two transactions opened at the same time are the same object", kase{Pred: p, Probe: pi})
 				}
 				_ = t2.Close()
 				_ = t1.Close()
@@ -365,7 +376,7 @@ func checkCase(c *runner.Ctx, refs []string, p pred, report func(sig, text strin
 			got = runProbe(w, pi)
 			if oldReader != nil {
 				if s := oldReader(); s != `""` {
-					report("reader-of-closed-transaction-yields-data", fmt.Sprintf("a request body reader of the closed predecessor yields %s while the recycled object serves the probe", s), kase{p, pi})
+					report("reader-of-closed-transaction-yields-data", fmt.Sprintf("a request body reader of the closed predecessor yields %s while the recycled object serves the probe", s), kase{Pred: p, Probe: pi})
 				}
 			}
 		})
@@ -375,12 +386,12 @@ func checkCase(c *runner.Ctx, refs []string, p pred, report func(sig, text strin
 		c.Count("evaluations", 1)
 		c.Count("traces_validated_against_impl", 1)
 		if pan != "" {
-			report("panic:"+pan, "panic: "+pan, kase{p, pi})
+			report("panic:"+pan, "panic: "+pan, kase{Pred: p, Probe: pi})
 			continue
 		}
 		c.Outcome(got)
 		if got != refs[pi] {
-			report("probe-differs:"+firstDiffKey(got, refs[pi]), "probe outcome on the recycled object differs from the outcome on a brand-new WAF:\n"+diffLines(got, refs[pi]), kase{p, pi})
+			report("probe-differs:"+firstDiffKey(got, refs[pi]), "probe outcome on the recycled object differs from the outcome on a brand-new WAF:\n"+diffLines(got, refs[pi]), kase{Pred: p, Probe: pi})
 		}
 	}
 }
@@ -438,6 +449,13 @@ func selfTest(c *runner.Ctx) {
 }
 
 func run(c *runner.Ctx) {
+	for variant = 0; variant <= 1; variant++ {
+		runVariant(c)
+	}
+	variant = 0
+}
+
+func runVariant(c *runner.Ctx) {
 	selfTest(c)
 	refs, err := references(c)
 	if err != nil {
@@ -455,10 +473,11 @@ func run(c *runner.Ctx) {
 			return
 		}
 		checkCase(c, refs, p, func(sig, text string, k kase) {
-			c.Violation(sig, fmt.Sprintf("predecessor: flags=%v stop_after=%d logging=%v closes=%d; probe %d (%s)\n%s", k.Pred.Flags, k.Pred.Stop, k.Pred.Logging, k.Pred.Closes, k.Probe, probes[k.Probe].URI, text), k)
+			k.Variant = variant
+			c.Violation(sig, fmt.Sprintf("audit variant %d; predecessor: flags=%v stop_after=%d logging=%v closes=%d; probe %d (%s)\n%s", variant, k.Pred.Flags, k.Pred.Stop, k.Pred.Logging, k.Pred.Closes, k.Probe, probes[k.Probe].URI, text), k)
 		})
 		b, _ := json.Marshal(p)
-		c.Distinct(string(b))
+		c.Distinct(fmt.Sprintf("v%d%s", variant, b))
 		states[string(b)] = true
 		if c.WantSample() {
 			c.Sample(map[string]any{"predecessor": p, "probes": len(probes)})
@@ -473,6 +492,8 @@ func replay(raw json.RawMessage) (bool, string) {
 		return false, err.Error()
 	}
 	c := &runner.Ctx{Work: tmpWork()}
+	variant = k.Variant
+	defer func() { variant = 0 }()
 	refs, err := references(c)
 	if err != nil {
 		return true, err.Error()
